@@ -60,14 +60,23 @@ def real_b1d(counts, elo, ehi, cap, cont, max_iter, min_h=60.0, max_h=135.0):
         with ghelib.quiet():
             key, coords = b.search()
         k, h = last_init[0]
-        assert fields[key] is coords and k == key, (key, k)
-        out = f"selected {key} {'H' if h == max_h else 'L'}"
-    except AssertionError:
-        raise
+        if fields[key] is coords and k == key:
+            out = f"selected {key} {'H' if h == max_h else 'L'}"
+        else:
+            # the search returns field `key` but its exchanger (what the manager sizes and reports) was left on field `k`
+            out = f"ghe-left-on-another-field returned={key} exchanger={k} {'H' if h == max_h else 'L'}"
     except Exception as e:  # noqa: BLE001
         out = exc_name(e)
     trs = " ".join(f"{i}:{'H' if h == max_h else 'L'}" for i, h in trace)
     return out, trs, dict(b.calculated_temperatures)
+
+
+def check_b1d_exchanger(ctx, args, out_r):
+    """The exchanger the search leaves behind must be the field it returns."""
+    if isinstance(out_r, str) and out_r.startswith("ghe-left-on-another-field"):
+        counts, elo, ehi, cap, cont, mi = args[:6]
+        ctx.finding("search-leaves-another-field-in-the-exchanger", f"Bisection1D.search: {out_r} (counts {counts[:8]}{'…' if len(counts) > 8 else ''}, cap {cap}, continue {cont})",
+                    {"counts": counts, "elo": elo, "ehi": ehi, "cap": cap, "cont": cont, "max_iter": mi, "real": out_r})
 
 
 def model_line_b1d(counts, elo, ehi, cap, cont, max_iter, min_h=60.0, max_h=135.0):
@@ -484,6 +493,12 @@ def size_cases(rng, n):
         hi = lo + rng.choice([0.5, 30.0, 75.0, 100.0])
         span = hi - lo
         c = (rng.choice(["HYBRID", "HOURLY"]), lo, hi, lo + rng.uniform(-0.5, 1.5) * span, lo + rng.uniform(-0.5, 1.5) * span, rng.uniform(0.01, 2.0))
+        if rng.random() < 0.2:
+            # an excess that RISES with the height and has the same sign at both ends (negative slope, root outside the window):
+            # solve_root's clamp is decided by the sign, not by which end is closer to zero
+            outside = rng.choice([lo - rng.uniform(0.05, 2.0) * span, hi + rng.uniform(0.05, 2.0) * span])
+            out.append((c[0], lo, hi, outside, outside, -c[5]))
+            continue
         if rng.random() < 0.5:
             # both limits in play: the governing one may change between the middle of the window and the root
             c = c + (lo + rng.uniform(-0.5, 1.5) * span, rng.uniform(0.01, 2.0))
@@ -504,6 +519,10 @@ def check_size_predicate(ctx, case, res):
     if len(case) > 6:
         root = max(root, case[6])        # both excess curves decrease with the height: their maximum is zero at the larger root
     want = min(max(root, lo), hi)
+    if slope < 0:
+        # rising excess, root outside the window: excess(h) = slope * (root - h), slope < 0, has one sign on [lo, hi]:
+        # root above the window -> negative everywhere -> lower bound; root below -> positive everywhere -> upper bound
+        want = lo if root > hi else hi
     tol = 2 * (1e-6 + 1e-6 * hi) + 1e-9
     if abs(H - want) > tol:
         ctx.finding("size-height-not-the-root", f"GHE.size({method_name}) on [{lo},{hi}] returned {H}, the {method_name.lower()} excess is zero at {root} (expected {want})", rep)
